@@ -514,6 +514,12 @@ Proof. apply jordan_eq_fuel. Qed.
 Lemma simple_eq_nf a b : nf (simple_eq a b).
 Proof. unfold simple_eq. nf_auto. Qed.
 #[export] Hint Resolve simple_eq_nf : nf.
+Lemma find_simple_nf s : forall l k, nf (find_simple s k l).
+Proof. induction l as [|o t IH]; intros k; cbn [find_simple]; nf_auto. Qed.
+#[export] Hint Resolve find_simple_nf : nf.
+Lemma match_simples_nf : forall ss os, nf (match_simples ss os).
+Proof. induction ss as [|s t IH]; intros os; cbn [match_simples]; nf_auto. Qed.
+#[export] Hint Resolve match_simples_nf : nf.
 Lemma comp_eq_nf a b : nf (comp_eq a b).
 Proof. unfold comp_eq. nf_auto. Qed.
 #[export] Hint Resolve comp_eq_nf : nf.
